@@ -64,6 +64,9 @@ def wf(eng, p, h):
         # ... and a hyperedge's id is listed exactly once for each of its nodes and for no other node
         "inc_once": FA([n, i], z3.Implies(adj.dom[n], adj.val[n][i] == z3.If(z3.And(live(h, i), TH.tmem(rv.val[i], n)), 1, 0)),
                        patterns=[adj.val[n][i]]),
+        # the same by key (a consequence of inc_once and el_rv, stated for the benefit of E-matching)
+        "inc_key": FA([n, k], z3.Implies(z3.And(adj.dom[n], el.dom[k]), adj.val[n][el.val[k]] == z3.If(TH.tmem(k, n), 1, 0)),
+                      patterns=[MP(el.dom[k], TH.tmem(k, n), adj.dom[n]), adj.val[n][el.val[k]]]),
         "nm_dom": FA([n], z3.Implies(adj.dom[n], nm.dom[n]), patterns=[adj.dom[n]]),
         "unweighted_1": z3.Implies(z3.Not(wt), FA([k], z3.Implies(el.dom[k], w.val[el.val[k]] == 1), patterns=[el.val[k]])),
     }
@@ -115,6 +118,7 @@ VIEWS = {
     "weighted": lambda eng, p, h: h.fields["_weighted"],
     "INC": lambda eng, p, h, n, k: T.sv_int(h.fields["_adj"].val[n.t][h.fields["_edge_list"].val[k.t]]),
     "ID": lambda eng, p, h, k: T.sv_int(h.fields["_edge_list"].val[k.t]),
+    "KLEN": lambda eng, p, h, k: T.sv_int(TH.tlen(k.t)),
 }
 
 LAYOUT = Layout(CLS, FIELDS, aliases={"Key": "Tup"}, views=VIEWS,
@@ -211,7 +215,7 @@ CONTRACTS = [
       invariants={0: {"inv": _add_edge_inv()}}),
     C("remove_edge",
       params={"edge": "NodeSeq"},
-      requires={"wf": "wf(self)", "distinct": "distinct(edge)"},
+      requires={"wf": "wf(self)"},
       raises={"KeyError": "canon(edge) not in E(self)"},
       modifies=["_adj", "_edge_list", "_reverse_edge_list", "_weights", "_edge_metadata"],
       ensures={
@@ -221,6 +225,148 @@ CONTRACTS = [
           **OTHER_EDGES, **NODE_MD_KEPT, **SAME_WEIGHTED,
       },
       invariants={0: {"inv": _remove_edge_inv()}}),
+
+    # ------------------------------------------------------------------ construction (empty)
+    C("__init__",
+      params={"edge_list": "None", "weighted": "Bool", "weights": "None", "hypergraph_metadata": "Opt[Meta]",
+              "node_metadata": "None", "edge_metadata": "None"},
+      fixed={"edge_list": None, "weights": None, "node_metadata": None, "edge_metadata": None},
+      modifies=list(FIELDS),
+      ensures={"wf": "wf(self)", "V": "all(n not in V(self) for n in Node)", "E": "all(k not in E(self) for k in Tuple)",
+               "weighted": "weighted(self) == weighted"},
+      properties=["C01", "C05"]),
+    # ------------------------------------------------------------------ membership, weights, metadata
+    C("check_node", params={"node": "Node"}, result="Bool", pure=True,
+      ensures={"result": "result == (node in V(self))"}),
+    C("check_edge", params={"edge": "NodeSeq"}, result="Bool", pure=True,
+      ensures={"result": "result == (canon(edge) in E(self))"}),
+    C("get_weight", params={"edge": "NodeSeq"}, result="Real", pure=True,
+      requires={"wf": "wf(self)"},
+      raises={"ValueError": "canon(edge) not in E(self)"},
+      ensures={"result": "result == W(self, canon(edge))"}, properties=["C01", "C05"]),
+    C("set_weight", params={"edge": "NodeSeq", "weight": "Real"},
+      requires={"wf": "wf(self)"},
+      raises={"ValueError": "(not weighted(self) and weight != 1) or canon(edge) not in E(self)"},
+      modifies=["_weights"],
+      ensures={"wf": "wf(self)", "W": "W(self, canon(edge)) == weight", **OTHER_EDGES}),
+    C("get_edge_metadata", params={"edge": "NodeSeq"}, result="Meta", pure=True,
+      requires={"wf": "wf(self)"},
+      raises={"ValueError": "canon(edge) not in E(self)"},
+      ensures={"result": "result == M(self, canon(edge))"}, properties=["C01", "C05"]),
+    C("set_edge_metadata", params={"edge": "NodeSeq", "metadata": "Meta"},
+      requires={"wf": "wf(self)"},
+      raises={"ValueError": "canon(edge) not in E(self)"},
+      modifies=["_edge_metadata"],
+      ensures={"wf": "wf(self)", "M": "M(self, canon(edge)) == metadata", **OTHER_EDGES}, properties=["C01", "C05"]),
+    C("get_node_metadata", params={"node": "Node"}, result="Meta", pure=True,
+      requires={"wf": "wf(self)"},
+      raises={"ValueError": "node not in V(self)"},
+      ensures={"result": "result == NM(self, node)"}, properties=["C01", "C05"]),
+    C("set_node_metadata", params={"node": "Node", "metadata": "Meta"},
+      requires={"wf": "wf(self)"},
+      raises={"ValueError": "node not in V(self)"},
+      modifies=["_node_metadata"],
+      ensures={"wf": "wf(self)", "NM": "NM(self, node) == metadata",
+               "NM_others": "all(NM(self, n) == NM(old(self), n) for n in V(self) if n != node)"}, properties=["C01", "C05"]),
+    C("set_attr_to_node_metadata", params={"node": "Node", "field": "Field", "value": "Val"},
+      requires={"wf": "wf(self)"},
+      may_raise={"ValueError": "node not in V(self)"},
+      modifies=["_node_metadata"],
+      ensures={"wf": "wf(self)", "NM": "implies(node in V(self), NM(self, node) == mset(NM(old(self), node), field, value))",
+               "NM_others": "all(NM(self, n) == NM(old(self), n) for n in V(self) if n != node)"}),
+    C("set_attr_to_edge_metadata", params={"edge": "NodeSeq", "field": "Field", "value": "Val"},
+      requires={"wf": "wf(self)"},
+      raises={"ValueError": "canon(edge) not in E(self)"},
+      modifies=["_edge_metadata"],
+      ensures={"wf": "wf(self)", "M": "M(self, canon(edge)) == mset(M(old(self), canon(edge)), field, value)", **OTHER_EDGES}),
+    C("remove_attr_from_node_metadata", params={"node": "Node", "field": "Field"},
+      requires={"wf": "wf(self)"},
+      may_raise={"ValueError": "node not in V(self)", "KeyError": "node not in V(self) or not mhas(NM(self, node), field)"},
+      modifies=["_node_metadata"],
+      ensures={"wf": "wf(self)", "NM": "implies(node in V(self), NM(self, node) == mdel(NM(old(self), node), field))",
+               "NM_others": "all(NM(self, n) == NM(old(self), n) for n in V(self) if n != node)"}),
+    C("remove_attr_from_edge_metadata", params={"edge": "NodeSeq", "field": "Field"},
+      requires={"wf": "wf(self)"},
+      raises={"ValueError": "canon(edge) not in E(self)"},
+      may_raise={"KeyError": "canon(edge) in E(self) and not mhas(M(self, canon(edge)), field)"},
+      modifies=["_edge_metadata"],
+      ensures={"wf": "wf(self)", "M": "M(self, canon(edge)) == mdel(M(old(self), canon(edge)), field)", **OTHER_EDGES}),
+    C("is_weighted", params={}, result="Bool", pure=True, ensures={"result": "result == weighted(self)"},
+      properties=["C01", "C05"]),
+    # ------------------------------------------------------------------ listings
+    C("get_nodes", params={"metadata": "Bool"}, fixed={"metadata": False}, result="Bag[Int]", pure=True,
+      ensures={"result": "all(count(result, n) == (1 if n in V(self) else 0) for n in Node)",
+               "len": "len(result) == card(V(self))"}, properties=["C01", "C05"]),
+    Contract(f"{CLS}.get_nodes@md", FILE, [CLS, "get_nodes"], self_cls=CLS, properties=["C01"],
+      params={"metadata": "Bool"}, fixed={"metadata": True}, result="Map[Int,Meta]", pure=True,
+      requires={"wf": "wf(self)"},
+      ensures={"dom": "all((n in result) == (n in V(self)) for n in Node)",
+               "val": "all(result[n] == NM(self, n) for n in V(self))"}),
+    C("get_edges",
+      params={"order": "Opt[Int]", "size": "Opt[Int]", "up_to": "Bool", "subhypergraph": "Bool",
+              "keep_isolated_nodes": "Bool", "metadata": "Bool"},
+      fixed={"subhypergraph": False, "keep_isolated_nodes": False, "metadata": False},
+      result="Bag[Tup]", pure=True,
+      requires={"wf": "wf(self)"},
+      raises={"ValueError": "order is not None and size is not None"},
+      ensures={"result": "all(count(result, k) == (1 if k in E(self) and sel(self, k, order, size, up_to) else 0) for k in Tuple)"},
+      properties=["C01", "C05"]),
+    Contract(f"{CLS}.get_edges@md", FILE, [CLS, "get_edges"], self_cls=CLS, properties=["C01"],
+      params={"order": "Opt[Int]", "size": "Opt[Int]", "up_to": "Bool", "subhypergraph": "Bool",
+              "keep_isolated_nodes": "Bool", "metadata": "Bool"},
+      fixed={"subhypergraph": False, "keep_isolated_nodes": False, "metadata": True},
+      result="Map[Tup,Meta]", pure=True,
+      requires={"wf": "wf(self)"},
+      raises={"ValueError": "order is not None and size is not None"},
+      ensures={"dom": "all((k in result) == (k in E(self) and sel(self, k, order, size, up_to)) for k in Tuple)",
+               "val": "all(implies(sel(self, k, order, size, up_to), result[k] == M(self, k)) for k in E(self))"}),
+    C("get_incident_edges", params={"node": "Node", "order": "Opt[Int]", "size": "Opt[Int]"},
+      result="Bag[Tup]", pure=True,
+      requires={"wf": "wf(self)"},
+      raises={"ValueError": "node not in V(self) or (order is not None and size is not None)"},
+      ensures={"result": "all(count(result, k) == (1 if k in E(self) and node in k and sel(self, k, order, size, False) else 0) for k in Tuple)"},
+      properties=["C01", "C08"]),
+    C("get_sizes", params={}, result="Bag[Int]", pure=True,
+      ensures={"len": "len(result) == card(E(self))",
+               "members": "all(implies(count(result, s) >= 1, any(len(k) == s for k in E(self))) for s in Int)",
+               "covers": "all(count(result, len(k)) >= 1 for k in E(self))"}),
+    C("get_orders", params={}, result="Bag[Int]", pure=True,
+      ensures={"len": "len(result) == card(E(self))",
+               "members": "all(implies(count(result, s) >= 1, any(len(k) - 1 == s for k in E(self))) for s in Int)",
+               "covers": "all(count(result, len(k) - 1) >= 1 for k in E(self))"}),
+    # ------------------------------------------------------------------ batched forms
+    # The list is modelled as a bag (any iteration order). Verified for lists of distinct stored canonical keys, which is
+    # how remove_node uses it; arbitrary lists (unsorted node order, missing or repeated hyperedges -> KeyError after a
+    # partial removal) are left to the bounded tier.
+    C("remove_edges", params={"edge_list": "Bag[Tup]"},
+      requires={"wf": "wf(self)",
+                "stored": "all(strict(e) and e in E(self) and count(edge_list, e) == 1 for e in edge_list)"},
+      modifies=["_adj", "_edge_list", "_reverse_edge_list", "_weights", "_edge_metadata"],
+      ensures={"wf": "wf(self)", "V": "V(self) == V(old(self))",
+               "E": "all((k in E(self)) == (k in E(old(self)) and count(edge_list, k) == 0) for k in Tuple)",
+               "W_kept": "all(W(self, k) == W(old(self), k) for k in E(self))",
+               "M_kept": "all(M(self, k) == M(old(self), k) for k in E(self))",
+               **NODE_MD_KEPT, **SAME_WEIGHTED},
+      invariants={0: {
+          "wf": "wf(self)", "V": "V(self) == V(old(self))",
+          "E": "all((k in E(self)) == (k in E(old(self)) and count(_done0, k) == 0) for k in Tuple)",
+          "W_kept": "all(W(self, k) == W(old(self), k) for k in E(self))",
+          "M_kept": "all(M(self, k) == M(old(self), k) for k in E(self))",
+          "NM_kept": "all(NM(self, n) == NM(old(self), n) for n in V(old(self)))",
+          "weighted": "weighted(self) == weighted(old(self))", "HM": "HM(self) == HM(old(self))"}}),
+    # ------------------------------------------------------------------ node removal
+    C("remove_node", params={"node": "Node", "keep_edges": "Bool"}, fixed={"keep_edges": False},
+      requires={"wf": "wf(self)"},
+      raises={"KeyError": "node not in V(self)"},
+      modifies=["_adj", "_edge_list", "_reverse_edge_list", "_weights", "_edge_metadata"],
+      ensures={"wf": "wf(self)",
+               "V": "all((n in V(self)) == (n in V(old(self)) and n != node) for n in Node)",
+               "E": "all((k in E(self)) == (k in E(old(self)) and node not in k) for k in Tuple)",
+               "W_kept": "all(W(self, k) == W(old(self), k) for k in E(self))",
+               "M_kept": "all(M(self, k) == M(old(self), k) for k in E(self))",
+               "NM_kept": "all(NM(self, n) == NM(old(self), n) for n in V(self))",
+               **SAME_WEIGHTED},
+      properties=["C01", "C19"]),
 ]
 
 
